@@ -14,6 +14,7 @@
 #include <map>
 #include <typeinfo>
 #include <new>
+#include <sys/wait.h>
 #include "xraylib++.h"
 extern "C" {
 #include "mon_common.h"
@@ -141,6 +142,43 @@ static const char *fname(int fn) {
   return sp.count(fn) ? sp[fn].c_str() : "?";
 }
 
+/* Scenario run in a forked child (it fills the built-in collection): additions through the wrapper until the fixed capacity
+ * is reached exercise the one error code that is neither INVALID_ARGUMENT nor MEMORY (RUNTIME -> std::runtime_error), plus the
+ * duplicate path; after every wrapper call the C view (list length, retrievability) is compared. Lines "key\twhat" on fd. */
+static void scenario_addcrystal(int fd) {
+  auto say = [&](const std::string &k, const std::string &w) { std::string l = k + "\t" + w + "\n"; if (write(fd, l.c_str(), l.size()) < 0) {} };
+  int n0 = 0; char **l0 = Crystal_GetCrystalsList(NULL, &n0, NULL); if (l0) { for (int k = 0; l0[k]; k++) xrlFree(l0[k]); xrlFree(l0); }
+  xrlpp::Crystal::Struct base = xrlpp::Crystal::GetCrystal("Si");
+  int accepted = 0, refused = 0;
+  for (int k = 0; k < CRYSTALARRAY_MAX + 8 - n0; k++) {
+    char name[40]; snprintf(name, sizeof name, "XvCpp%04d", k);
+    xrlpp::Crystal::Struct c(name, base.a + 0.001 * k, base.b, base.c, base.alpha, base.beta, base.gamma, 0.0, base.atom);
+    int before = 0, after = 0; char **l = Crystal_GetCrystalsList(NULL, &before, NULL); if (l) { for (int j = 0; l[j]; j++) xrlFree(l[j]); xrlFree(l); }
+    Out w = guarded([&](Out &o) { o.v[0] = xrlpp::Crystal::AddCrystal(c); });
+    l = Crystal_GetCrystalsList(NULL, &after, NULL); if (l) { for (int j = 0; l[j]; j++) xrlFree(l[j]); xrlFree(l); }
+    bool full = before >= CRYSTALARRAY_MAX;
+    if (!full) {
+      if (w.kind != 0 || w.v[0] != 1 || after != before + 1) { say("c18:Crystal::AddCrystal:wrapper-fails-on-success", "adding a new crystal below capacity: kind " + std::string(KN[w.kind > 4 ? 4 : w.kind]) + " " + w.what); break; }
+      accepted++;
+      if (k % 37 == 0) { Out d = guarded([&](Out &o) { o.v[0] = c.AddCrystal(); });     /* duplicate: C reports INVALID_ARGUMENT */
+        if (d.kind != 1 || d.what != "Crystal already present in array") say("c18:Crystal::AddCrystal:duplicate-not-invalid_argument", std::string(KN[d.kind > 4 ? 4 : d.kind]) + " '" + d.what + "'"); }
+    } else {
+      /* what C says for the same situation (another new name on the full array) */
+      Crystal_Struct *cc = Crystal_GetCrystal("Si", NULL, NULL); xrl_error *e = NULL; int rv = 1; std::string cmsg; int ccode = -1;
+      if (cc) { free(cc->name); cc->name = strdup("XvCppProbe"); rv = Crystal_AddCrystal(cc, NULL, &e); Crystal_Free(cc); }
+      if (e) { cmsg = e->message; ccode = (int)e->code; xrl_error_free(e); }
+      int want = ccode == XRL_ERROR_MEMORY ? 2 : ccode == XRL_ERROR_INVALID_ARGUMENT ? 1 : 3;
+      if (rv != 0 || ccode < 0) { say("harness:scenario", "C accepted an addition on the full built-in array"); break; }
+      if (w.kind == 0) say("c18:Crystal::AddCrystal:no-exception-on-error", "C reports '" + cmsg + "' (code " + std::to_string(ccode) + ") on the full built-in array, the wrapper returned " + std::to_string(w.v[0]));
+      else if (w.kind != want) say("c18:Crystal::AddCrystal:wrong-exception-type", std::string(KN[w.kind > 4 ? 4 : w.kind]) + " instead of " + KN[want]);
+      else if (w.what != cmsg) say("c18:Crystal::AddCrystal:wrong-exception-message", "what()='" + w.what + "' C message='" + cmsg + "'");
+      if (after != before) say("c18:Crystal::AddCrystal:array-changed-on-error", "list length changed on a refused addition");
+      refused++;
+    }
+  }
+  say("info", "accepted=" + std::to_string(accepted) + " refused=" + std::to_string(refused));
+}
+
 int main(int argc, char **argv) {
   if (argc < 5 || strcmp(argv[1], "run")) { fprintf(stderr, "usage: cppmon run req str out\n"); return 2; }
   FILE *f = fopen(argv[2], "rb"); if (!f) return 2;
@@ -182,11 +220,22 @@ int main(int argc, char **argv) {
       if (grew == 3) V("leak:wrapper:" + std::string(w.kind == 0 ? "value-path" : "exception-path") + ":" + (r->fn < XV_NFN ? "generated-wrappers" : fn), "allocation balance grows on every repetition of the wrapper call", r);
     }
   }
+  long sc_accepted = -1, sc_refused = -1;
+  if (getenv("XV_CPP_SCENARIO")) {
+    int pfd[2]; if (pipe(pfd) == 0) { fflush(NULL); pid_t pid = fork();
+      if (pid == 0) { close(pfd[0]); scenario_addcrystal(pfd[1]); close(pfd[1]); _exit(0); }
+      close(pfd[1]); std::string all; char b[4096]; ssize_t m; while ((m = read(pfd[0], b, sizeof b)) > 0) all.append(b, m); close(pfd[0]);
+      int st = 0; waitpid(pid, &st, 0);
+      if (!WIFEXITED(st) || WEXITSTATUS(st) != 0) { xv_req dummy; memset(&dummy, 0, sizeof dummy); dummy.fn = 2003; dummy.s = -1; V("c18:Crystal::AddCrystal:scenario-died", "the add-until-full scenario process died (status " + std::to_string(st) + ")", &dummy); }
+      size_t p = 0; while (p < all.size()) { size_t q = all.find('\n', p); if (q == std::string::npos) q = all.size(); std::string line = all.substr(p, q - p); p = q + 1;
+        size_t t = line.find('\t'); if (t == std::string::npos) continue; std::string k = line.substr(0, t), w = line.substr(t + 1);
+        if (k == "info") { sscanf(w.c_str(), "accepted=%ld refused=%ld", &sc_accepted, &sc_refused); continue; }
+        xv_req dummy; memset(&dummy, 0, sizeof dummy); dummy.fn = 2003; dummy.s = -1; V(k, w, &dummy); } } }
   FILE *o = fopen(argv[4], "w"); if (!o) return 2;
   auto js = [&](const std::string &s) { fputc('"', o); for (char ch : s) { unsigned char c = (unsigned char)ch; if (c == '"' || c == '\\') { fputc('\\', o); fputc(c, o); } else if (c < 32 || c > 126) fputc('?', o); else fputc(c, o); } fputc('"', o); };
   for (auto &kv : viol) { fprintf(o, "{\"type\":\"viol\",\"key\":"); js(kv.first); fprintf(o, ",\"what\":"); js(kv.second.what); fprintf(o, ",\"witness\":"); js(kv.second.witness); fprintf(o, ",\"count\":%ld}\n", kv.second.count); }
   for (auto &kv : stats) { fprintf(o, "{\"type\":\"fn\",\"fn\":"); js(fname(kv.first)); fprintf(o, ",\"calls\":%ld,\"value\":%ld,\"invalid_argument\":%ld,\"bad_alloc\":%ld,\"runtime_error\":%ld,\"other\":%ld}\n", kv.second.calls, kv.second.exc[0], kv.second.exc[1], kv.second.exc[2], kv.second.exc[3], kv.second.exc[4]); }
-  fprintf(o, "{\"type\":\"summary\",\"requests\":%ld,\"skipped\":%ld,\"leakchecks\":%ld,\"asan\":%d}\n", n, skipped, leakchecks, XV_ASAN);
+  fprintf(o, "{\"type\":\"summary\",\"requests\":%ld,\"skipped\":%ld,\"leakchecks\":%ld,\"asan\":%d,\"scenario_accepted\":%ld,\"scenario_refused\":%ld}\n", n, skipped, leakchecks, XV_ASAN, sc_accepted, sc_refused);
   fclose(o);
   free(rq); free(sbuf); free(g_str);
   return 0;
